@@ -56,6 +56,12 @@ PURE_STR_METHODS = {"format", "join", "split", "rstrip", "strip", "lstrip",
 # names that, on a receiver other than `self`, denote the builtin container /
 # string method (gfapy defines `append` only as an alias of Gfa.add_line, which
 # library code never calls through an untyped receiver)
+# every public method of the builtin value types (a call of one of these
+# names on a receiver that is not a library object is not an undefined name)
+BUILTIN_TYPE_METHODS = {
+    n for t in (str, bytes, list, dict, set, frozenset, tuple, int, float)
+    for n in dir(t) if not n.startswith("_")}
+
 BUILTIN_ONLY = {"append", "extend", "insert", "pop", "remove", "clear",
                 "update", "discard", "sort", "setdefault", "popitem", "keys",
                 "values", "items", "copy", "index", "count", "join", "split",
@@ -633,6 +639,31 @@ class FuncAnalysis:
                     self.write(self.ev(t.value), t.attr, st, "del")
         elif isinstance(st, ast.Assert):
             self.ev(st.test)
+        elif isinstance(st, ast.Match):
+            v = self.ev(st.subject)
+            for case in st.cases:
+                # every capture name may hold the subject, one of its
+                # elements or one of its attributes
+                for n in ast.walk(case.pattern):
+                    if isinstance(n, ast.MatchValue):
+                        self.ev(n.value)
+                    name = None
+                    if isinstance(n, (ast.MatchAs, ast.MatchStar)):
+                        name = n.name
+                    elif isinstance(n, ast.MatchMapping):
+                        name = n.rest
+                    if name:
+                        val = v | deref(v, "[]")
+                        self.bind(name, val)
+                        self.notselflike.add(name)
+                    if isinstance(n, ast.MatchClass):
+                        for attr, sub in zip(n.kwd_attrs, n.kwd_patterns):
+                            for m in ast.walk(sub):
+                                if isinstance(m, ast.MatchAs) and m.name:
+                                    self.bind(m.name, deref(v, attr))
+                if case.guard is not None:
+                    self.ev(case.guard)
+                self.block(case.body)
         elif isinstance(st, (ast.FunctionDef, ast.AsyncFunctionDef,
                              ast.ClassDef, ast.Pass, ast.Break, ast.Continue,
                              ast.Import, ast.ImportFrom, ast.Global,
@@ -1351,7 +1382,8 @@ class FuncAnalysis:
             out |= self.builtin_method(node, name, recv, args)
         if not meths and not is_self and name not in MUTATORS and \
                 name not in COPY_METHODS and name not in DEREF_METHODS and \
-                name not in PURE_STR_METHODS:
+                name not in PURE_STR_METHODS and \
+                name not in BUILTIN_TYPE_METHODS:
             self.prog.unresolved.append((self.func, node))
         return out
 
